@@ -48,8 +48,9 @@ import torch
 from ..envs import SPECS, py_instance
 from ..models.decode import reference_logprobs, reference_ptrnet
 from ..play import judge_row, violated
-from ..policies import (INFO, MDAM_PATHS, NO_FORCED_START, ZOO, DeterministicMatNetInit, build_policy, expand_starts,
-                        has_batchnorm, make_batch, small_cfg)
+from ..policies import (INFO, MDAM_PATHS, NO_FORCED_START, ZOO, DeterministicMatNetInit, StartFn, build_policy,
+                        expand_starts, family, has_batchnorm, make_batch, resolve_setup, setup_dims, setup_events,
+                        small_cfg)
 from ..runner import Sub
 
 PROPERTY = "C11"
@@ -68,6 +69,26 @@ RULE = (
     "Decisive fraction (top-2 gap > 1e-4 among multi-choice steps) is reported as event counters. "
     "Zoo entries am/mdcpdp (fixed length n+2*depots-1; depots 1-3, reward/problem/distance modes by variant; no forced-start "
     "modes: its reset admits depot 0 only), am/dpp, am/mdpp (synthetic PDN data, chips 4x4/5x5/8x8, quota n-2). "
+    "Round-3b dimensions of `policies` (optional case keys; class counters cfg:* / src:* / env:* / ctor:* / request:* / "
+    "decode_type_via_phase / select_start_nodes_fn): env configuration = the frozen variant config or (1/2) small sizes + the "
+    "size-neutral options of vf.envs.SPECS[env].cfg (vf.policies.env_cfgs: capacities, vehicle_capacity != 1, CVRPTW "
+    "scale/max_time, SVRP tech_costs, OP prize_type/max_length, PDP force_start, mTSP agents/cost type, MTVRP "
+    "preset/speed/scale_demand/backhaul_ratio/distance_limit, job-shop machines 1-3 / operations / processing times / "
+    "mask_no_ops / stepwise_reward / check_mask, MDCPDP depots and modes); instance source generator or (1/4 of the wide "
+    "configs) the spec's hand-built lattice / float / tight rows; env object built for another size than its instances (1/6, "
+    "vf.envs.ENV_SHAPE_FREE); env handed to the policy as None or by name (1/8 where the default-built env is equivalent: "
+    "tsp/cvrp/sdvrp/cvrptw/svrp/op); constructor switches of AttentionModelPolicy for am/am_pomo/symnco (1/2: mask_inner, "
+    "linear_bias_decoder, out_bias_pointer_attn, check_nan, feedforward_hidden, torch vs the library's own simple "
+    "scaled-dot-product attention given as sdpa_fn / sdpa_fn_encoder / sdpa_fn_decoder callable or string, constructor "
+    "temperature / tanh_clipping - then mostly left untouched by the call: via=ctor); request form of a replicated decode "
+    "(MS_FORMS / SAMPLE_FORMS: multistart_* name or multistart=/multisample= flags or plain greedy|sampling with "
+    "num_starts, counts k / None=env default / 0 / 1, num_samples=1, greedy with num_samples) with the expected layout "
+    "derived from the documented resolution rules (resolve_request); decode type through phase + <phase>_decode_type (1/4; "
+    "other phases carry another type); caller-supplied select_start_nodes_fn (1/4 of the multistart cases: known feasible "
+    "starts, rotated per case); L2D under multistart / multisample (k 2-4, forced starts random: read from the returned "
+    "actions); zoo variants polynet_matnet/atsp, matnet_ctx/atsp (use_graph_context, bias), l2d_stepwise/jssp|fjsp, mvmoe_k1 | mvmoe_kall | "
+    "mvmoe_enc/mtvrp, nar/tsp (NonAutoregressivePolicy on a stub heat-map encoder; no multisample), PointerNetworkPolicy "
+    "constructor tanh_clipping 0|5|10 / mask_inner (1/2), MDAM with 2 or 3 paths. "
     "matnet_ffsp: case = (jobs 2-5, stages 1-3, machines per stage 2-3, run times < 3/5/10, B 1-4, seeds, spread, greedy | "
     "sampling taken from the <phase>_decode_type attribute of a drawn phase (the other phases carry the other type), "
     "num_starts 1 | 2 | 3 | 6 (<= machines!), eval/train mode, temperature kwarg, float64 slice 1/4); non-trivial = some row "
@@ -119,6 +140,22 @@ ASSUMPTIONS = [
     "1e-6 x steps for the returned sum (the policy collects step values in a float32 buffer); the cross-layout "
     "reference is only asserted in the float64 slice (instance norm over 2-3 elements amplifies float32 layout "
     "rounding to 4e-3)",
+    "request forms: the expected number of rollouts per instance and the forced first step follow the documented rules of "
+    "DecodingStrategy (docstring + constructor comments: a `multistart` decode type or flag, num_starts / num_samples given "
+    "-> flag := count > 1, count = num_starts under multistart else num_samples, default env.get_num_starts(td)); requests "
+    "resolving to a count <= 1 are plain decodes (R = B, no forced move); default counts above 64 rows are excluded (counted); "
+    "the job shops' default count is 100 (explicit counts only)",
+    "select_start_nodes_fn is a harness function (vf.policies.StartFn) returning mask-feasible non-depot first moves in "
+    "start-major order; asserted: called once as fn(td[B], env, k) and actions[:, 0] equal its answer (row r <-> instance r mod B)",
+    "env=None / env name: the policy builds rl4co.envs.get_env(name) itself; the harness resets and replays with its own "
+    "default-constructed env of that name; only configs whose env-side options are the constructor defaults (vehicle "
+    "capacity 1, SVRP tech costs [1,2,3]); MTVRPEnv() / default FJSP, PCTSP, PDP, mTSP objects cannot take other shapes "
+    "(probed) and are not drawn",
+    "hand-built CVRPTW rows under a policy are unscaled (integer units; they saturate toy networks: ties, counted as "
+    "non-decisive); FJSP/JSSP start rule is random (sample_n_random_actions): always mask-feasible, k=1 is F37 (not drawn)",
+    "not drawn because unsupported on the pinned tree (probed): sdpa_fn='simple' as a STRING for the encoder (TypeError, "
+    "the string form exists for the decoder only), MDAM(num_paths=1) (UnboundLocalError), NonAutoregressiveDecoder with "
+    "multisample (IndexError), PolyNet under beam search (strategy vector tied to the row, C13)",
     "mdam: eval mode only (batch norm in the encoder); the reference trusts init embedding, encoder, "
     "MDAMDecoder._precompute / _get_logprobs and env.step - not MDAMDecoder.forward, decode_logprobs, get_log_likelihood",
 ]
@@ -140,6 +177,53 @@ NORM_KEYS = ("am", "symnco", "ham")
 MODES = ["greedy", "sampling", "multistart_greedy", "multistart_sampling", "multisample"]
 TOP_K = [0] * 9 + [1, 2, 3]
 TOP_P = [0.0] * 9 + [0.5, 0.8, 0.95]
+# start rules that draw from the global RNG (FJSPEnv / JSSPEnv.select_start_nodes = sample_n_random_actions): the forced
+# first moves of a multistart decode are read from out["actions"][:, 0] (always mask-feasible by construction)
+RANDOM_STARTS = ("jssp", "fjsp")
+# how a replicated decode is REQUESTED (audit item 15).  DecodingStrategy documents: `multistart` / `multisample` flags,
+# "multistart" in the decode type sets the flag, num_starts / num_samples given -> the flag becomes (count > 1), the
+# count of rollouts per instance is num_starts under multistart, else num_samples, default env.get_num_starts(td).
+# Forms whose resolved count is <= 1 are plain decodes of the B instances (no expansion, no forced first move).
+MS_FORMS = ["name+k"] * 4 + ["plain+k", "flag+k", "name", "flag", "name+none", "name+0", "name+1", "flag+1"]
+SAMPLE_FORMS = ["samples=k"] * 3 + ["flag+k", "flag", "samples=1", "flag+1", "greedy+samples=k"]
+
+
+def request_kwargs(mode, k, form):
+    """Decoding kwargs (decode_type, num_starts, num_samples, multistart, multisample) of a drawn request form."""
+    base = "greedy" if "greedy" in mode else "sampling"
+    if mode.startswith("multistart"):
+        return {"name+k": dict(decode_type=mode, num_starts=k), "plain+k": dict(decode_type=base, num_starts=k),
+                "flag+k": dict(decode_type=base, multistart=True, num_starts=k), "name": dict(decode_type=mode),
+                "flag": dict(decode_type=base, multistart=True), "name+none": dict(decode_type=mode, num_starts=None),
+                "name+0": dict(decode_type=mode, num_starts=0), "name+1": dict(decode_type=mode, num_starts=1),
+                "flag+1": dict(decode_type=base, multistart=True, num_starts=1)}[form or "name+k"]
+    if mode == "multisample":
+        return {"samples=k": dict(decode_type="sampling", num_samples=k),
+                "flag+k": dict(decode_type="sampling", multisample=True, num_samples=k),
+                "flag": dict(decode_type="sampling", multisample=True),
+                "samples=1": dict(decode_type="sampling", num_samples=1),
+                "flag+1": dict(decode_type="sampling", multisample=True, num_samples=1),
+                "greedy+samples=k": dict(decode_type="greedy", num_samples=k)}[form or "samples=k"]
+    return dict(decode_type=mode)
+
+
+def resolve_request(kw, default_k):
+    """The documented resolution rules of DecodingStrategy (harness-side statement) -> (multistart, multisample, k):
+    k rollouts per instance, 0 = plain decode of the batch."""
+    dt = kw["decode_type"]
+    ms = ("multistart" in dt) or bool(kw.get("multistart", False))
+    msa = bool(kw.get("multisample", False))
+    ns, nsa = kw.get("num_starts"), kw.get("num_samples")
+    if nsa is not None:
+        msa = nsa > 1
+    if ns is not None:
+        ms = ns > 1
+    k = ns if ms else nsa
+    if ms or msa:
+        k = int(default_k) if k is None else int(k)
+    else:
+        k = 0
+    return bool(ms), bool(msa and not ms), k
 
 
 # --------------------------------------------------------------------------- strategy
@@ -150,10 +234,13 @@ def cases(draw, tier="quick"):
     B = draw(st.integers(1, 4))
     info = INFO[key]
     modes = ["greedy", "sampling", "sampling"]
-    if info["multistart"]:
+    fam = family(key)  # (variants share the special rules of their family: float64 support, start-index conditioning)
+    if info["multistart"] or envn in RANDOM_STARTS:
         modes += ["multistart_greedy", "multistart_sampling", "multistart_sampling", "multisample"]
-        if key == "polynet":
+        if fam == "polynet":
             modes += ["multisample"]
+    if info.get("no_multisample"):
+        modes = [m for m in modes if m != "multisample"]
     if envn in NO_FORCED_START:
         modes = [m for m in modes if not m.startswith("multistart")]
     mode = draw(st.sampled_from(modes))
@@ -166,13 +253,13 @@ def cases(draw, tier="quick"):
         tanh=draw(st.sampled_from([None, None, 0.0, 5.0, 10.0])),
         via=draw(st.sampled_from(["attr", "attr", "kwargs"])),
         train=draw(st.booleans()), ret_sum=draw(st.booleans()), ret_entropy=draw(st.booleans()),
-        select_best=(draw(st.integers(0, 3)) == 0) if mode.startswith("multistart") and key != "polynet" else False,
+        select_best=(draw(st.integers(0, 3)) == 0) if mode.startswith("multistart") and fam != "polynet" else False,
         norm=draw(st.sampled_from([None, None, "instance", "layer"])) if key in NORM_KEYS else None,
         variant=draw(st.integers(0, 3)),
-        f64=(draw(st.integers(0, 7 if tier == "quick" else 3)) == 0) and key not in NO_F64,
+        f64=(draw(st.integers(0, 7 if tier == "quick" else 3)) == 0) and fam not in NO_F64,
     )
     # without clipping large spreads saturate the softmax (p ~ 1 everywhere): keep the spread moderate there
-    unclipped = case["tanh"] == 0.0 or (case["tanh"] is None and key not in ("am", "am_pomo", "symnco", "ham", "polynet",
+    unclipped = case["tanh"] == 0.0 or (case["tanh"] is None and fam not in ("am", "am_pomo", "symnco", "ham", "polynet",
                                                                            "l2d", "mvmoe", "ptrnet"))
     case["spread"] = draw(st.sampled_from([1.25, 1.5] if unclipped else [1.25, 1.5, 1.5, 2.0, 2.5]))
     if key != "ptrnet":  # decoding filters (DecodingStrategy kwargs); PointerNetworkPolicy has its own loop without them
@@ -180,6 +267,34 @@ def cases(draw, tier="quick"):
         case["top_p"] = draw(st.sampled_from(TOP_P))
     if envn in FIXED_LEN and key != "ptrnet" and draw(st.integers(0, 2)) == 0:
         case["stepmask"] = draw(st.lists(st.booleans(), min_size=4, max_size=24))
+    if key == "ptrnet":
+        if draw(st.booleans()):  # constructor options of PointerNetworkPolicy (its call ignores temperature / tanh kwargs)
+            case["opts"] = {"ptr_tanh": draw(st.sampled_from([0.0, 5.0, 10.0])), "ptr_mask_inner": draw(st.booleans())}
+        return case
+    # ---- how the decode is requested: request form of replicated decodes (flag resolution, degenerate counts, default
+    # counts; the default count of the job shops is 100 rollouts per instance: explicit counts only there), decode
+    # type through `phase` + `<phase>_decode_type` instead of the decode_type kwarg, a caller-supplied start rule
+    if mode.startswith("multistart"):
+        forms = [f for f in MS_FORMS if not (envn in RANDOM_STARTS and f in ("name", "flag", "name+none"))]
+        case["form"] = draw(st.sampled_from(forms))
+        if case["form"] in ("name+0", "name+1", "flag+1"):
+            case["select_best"] = False
+        if draw(st.integers(0, 3)) == 0:
+            case["ssn"] = draw(st.integers(0, 7))
+    elif mode == "multisample":
+        forms = [f for f in SAMPLE_FORMS if not (envn in RANDOM_STARTS and f == "flag")
+                 and not (fam == "polynet" and f not in ("samples=k", "flag+k"))]
+        case["form"] = draw(st.sampled_from(forms))
+    if draw(st.integers(0, 3)) == 0:
+        case["dt_via"] = "phase"
+        case["phase"] = draw(st.sampled_from(["train", "val", "test"]))
+    # ---- env configuration / instance source / env built for another size / env given by name / constructor switches
+    if envn not in ("dpp", "mdpp"):
+        base = env_cfg(envn, n, case["variant"])
+        case.update(draw(setup_dims(key, envn, n, base, B, tier)))
+        if case.get("opts") and ("ctor_temperature" in case["opts"] or "ctor_tanh" in case["opts"]) \
+                and draw(st.integers(0, 2)) != 0:
+            case["via"] = "ctor"  # temperature / tanh clipping are what the policy was constructed with
     return case
 
 
@@ -344,9 +459,7 @@ def _strategy_tables(ctx, policy, ref, A, Tm, C, top_k, top_p, slice_, tol, eps)
 # --------------------------------------------------------------------------- main check
 def execute(case, ctx):
     key, envn = case["zoo"]
-    mode, k, B = case["mode"], int(case["k"]), int(case["B"])
-    multistart = mode.startswith("multistart")
-    multisample = mode == "multisample"
+    mode, B = case["mode"], int(case["B"])
     f64 = bool(case["f64"])
     slice_ = f"{key}/{envn}|{mode}" + ("|B=1" if (envn == "mtsp" and B == 1) else "")
     ctx.event(f"zoo:{key}/{envn}|{mode}")
@@ -356,11 +469,12 @@ def execute(case, ctx):
     # am/mtsp with multistart / multisample crashes in MTSPContext (known finding F34): those cases are run,
     # matched by signature against known_findings.json and counted, so the search continues behind them.
 
-    cfg = env_cfg(envn, case["n"], case["variant"])
-    if envn == "pdp" and multistart:
+    cfg, mkw = resolve_setup(case, env_cfg(envn, case["n"], case["variant"]))
+    if envn == "pdp" and mode.startswith("multistart") and not case.get("ecfg"):
         cfg["force_start"] = False  # pickups can only be forced first moves with a free start
-    env, inst, td0 = make_batch(envn, cfg, B, case["iseed"], double=f64)
-    policy = build_policy(key, envn, env, seed=case["pseed"], spread=case["spread"], double=f64, norm=case["norm"])
+    env, inst, td0 = make_batch(envn, cfg, B, case["iseed"], double=f64, **mkw)
+    policy = build_policy(key, envn, env, seed=case["pseed"], spread=case["spread"], double=f64, norm=case["norm"],
+                          opts=case.get("opts"))
     if key == "ptrnet":
         try:
             with watchdog():
@@ -368,16 +482,35 @@ def execute(case, ctx):
         except Hang:
             ctx.violation("hang|ptrnet/tsp", f"policy call did not return within {HANG_S}s at toy size")
             return
+    setup_events(ctx, case, envn, cfg)
+
+    # ---- the request and what it resolves to under the documented rules
+    req = request_kwargs(mode, int(case["k"]), case.get("form"))
+    multistart, multisample, k = resolve_request(req, env.get_num_starts(td0) if envn not in RANDOM_STARTS else 0)
+    if case.get("form"):
+        ctx.event(f"request:{case['form']}")
+        ctx.event("request_resolves_to:" + ("multistart" if multistart else "multisample" if multisample else "plain"))
+    if (multistart or multisample) and k < 2:
+        ctx.exclude("default_count<2")
+        return
+    if k * B > 64:
+        ctx.exclude("default_count_too_large_for_the_toy_budget")
+        return
 
     dT, dC = _defaults(policy)
-    Tm = float(case["temperature"])
-    C = float(dC if case["tanh"] is None else case["tanh"])
+    via = case["via"]
+    if via == "ctor":
+        Tm, C = float(dT), float(dC)
+    else:
+        Tm = float(case["temperature"])
+        C = float(dC if case["tanh"] is None else case["tanh"])
     tkw = {}
-    if case["via"] == "attr":
+    if via == "attr":
         policy.temperature, policy.tanh_clipping = Tm, C
     else:
         policy.temperature, policy.tanh_clipping = dT, dC
-        tkw = dict(temperature=Tm, tanh_clipping=C)
+        if via == "kwargs":
+            tkw = dict(temperature=Tm, tanh_clipping=C)
     # decoding filters: always decoding kwargs (there is no policy attribute for them), for the generating call AND the
     # evaluate call; cases recorded before the filters were drawn carry no such keys
     top_k, top_p = int(case.get("top_k", 0) or 0), float(case.get("top_p", 0.0) or 0.0)
@@ -407,25 +540,50 @@ def execute(case, ctx):
         ctx.event("stepmask_injected")
 
     # multistart: forced start nodes must be feasible at reset (otherwise C12's business)
+    ssn = None
     if multistart:
-        torch.manual_seed(case["tseed"])
-        a0 = ctx.guard(env.select_start_nodes, td0.clone(), num_starts=k, what=f"select_start_nodes|{envn}")
-        m0 = expand_starts(td0, k)["action_mask"]
-        if a0.shape[0] != m0.shape[0] or int(a0.max()) >= m0.shape[1] or int(a0.min()) < 0 \
-                or not bool(m0.gather(1, a0.view(-1, 1)).all()):
-            ctx.exclude("forced_start_infeasible(C12)")
-            return
+        first = 1 if SPECS[envn].has_depot_action else 0
+        if case.get("ssn") is not None:
+            # a caller-supplied start rule (select_start_nodes_fn): feasible non-depot first moves of every instance
+            if not bool(td0["action_mask"][:, first:].any(-1).all()):
+                ctx.exclude("no_feasible_first_move_but_the_depot(C12)")
+                return
+            ssn = StartFn(case["ssn"], first)
+            ctx.event("select_start_nodes_fn")
+        elif envn not in RANDOM_STARTS:
+            if not bool(td0["action_mask"][:, first:].any(-1).all()):
+                ctx.exclude("no_feasible_first_move_but_the_depot(C12)")
+                return
+            torch.manual_seed(case["tseed"])
+            a0 = ctx.guard(env.select_start_nodes, td0.clone(), num_starts=k, what=f"select_start_nodes|{envn}")
+            m0 = expand_starts(td0, k)["action_mask"]
+            if a0.shape[0] != m0.shape[0] or int(a0.max()) >= m0.shape[1] or int(a0.min()) < 0 \
+                    or not bool(m0.gather(1, a0.view(-1, 1)).all()):
+                ctx.exclude("forced_start_infeasible(C12)")
+                return
+        else:
+            ctx.event("random_start_rule(starts read from the returned actions)")
 
     kw = dict(return_actions=True, return_sum_log_likelihood=bool(case["ret_sum"]),
               return_entropy=bool(case["ret_entropy"]), **tkw)
-    if multisample:
-        kw.update(decode_type="sampling", num_samples=k)  # num_starts=k would imply multistart
-    else:
-        kw.update(decode_type=mode)
-        if multistart:
-            kw.update(num_starts=k)
-            if case["select_best"]:
-                kw.update(select_best=True)
+    rkw = dict(req)
+    saved_types = None
+    if case.get("dt_via") == "phase":
+        # decode type from the `<phase>_decode_type` attribute of the requested phase; the other phases carry another type
+        ph = case["phase"]
+        dt = rkw.pop("decode_type")
+        other = "greedy" if "sampling" in dt else "sampling"
+        saved_types = {p_: getattr(policy, f"{p_}_decode_type") for p_ in ("train", "val", "test")}
+        for p_ in saved_types:
+            setattr(policy, f"{p_}_decode_type", dt if p_ == ph else other)
+        kw["phase"] = ph
+        ctx.event("decode_type_via_phase")
+        ctx.event(f"decode_type_via_phase:{ph}")
+    kw.update(rkw)
+    if multistart and case["select_best"]:
+        kw.update(select_best=True)
+    if ssn is not None:
+        kw["select_start_nodes_fn"] = ssn
     select_best = multistart and bool(case["select_best"])
 
     if envn in ("dpp", "mdpp") and (multistart or multisample) and B != k:
@@ -437,22 +595,33 @@ def execute(case, ctx):
             return
 
     kw["max_steps"] = 6 * case["n"] + 24  # documented safety valve of forward(); far above any episode length here
+    # the env as the policy gets it: the env object, or None / its name (the policy then builds get_env(name) itself;
+    # `env` is the harness' own default-constructed env of that name, used by the reference and the oracles)
+    env_arg = {"object": env, "none": None, "name": envn}[case.get("env_via", "object")]
     policy.train(train)
     try:
         with watchdog():
-            _run(case, ctx, env, inst, td0, policy, cfg, kw, tkw, slice_, tol, Tm, C, stepmask, select_best)
+            _run(case, ctx, env, inst, td0, policy, cfg, kw, tkw, slice_, tol, Tm, C, stepmask, select_best,
+                 (multistart, multisample, k), ssn, env_arg, rkw)
     except Hang:
         ctx.violation(f"hang|{slice_}", f"policy call / re-evaluation did not return within {HANG_S}s at toy size")
     finally:
         policy.eval()
         policy.temperature, policy.tanh_clipping = dT, dC
+        if saved_types is not None:
+            for p_, v in saved_types.items():
+                setattr(policy, f"{p_}_decode_type", v)
 
 
-def _run(case, ctx, env, inst, td0, policy, cfg, kw, tkw, slice_, tol, Tm, C, stepmask, select_best):
+def _run(case, ctx, env, inst, td0, policy, cfg, kw, tkw, slice_, tol, Tm, C, stepmask, select_best, resolved=None,
+         ssn=None, env_arg=None, rkw=None):
     key, envn = case["zoo"]
-    mode, k, B = case["mode"], int(case["k"]), int(case["B"])
-    multistart = mode.startswith("multistart")
-    multisample = mode == "multisample"
+    mode, B = case["mode"], int(case["B"])
+    if resolved is None:
+        resolved = (mode.startswith("multistart"), mode == "multisample", int(case["k"]))
+    multistart, multisample, k = resolved
+    if env_arg is None and case.get("env_via", "object") == "object":
+        env_arg = env
     ksteps = k if (multistart or multisample) else 0
     top_k, top_p = int(case.get("top_k", 0) or 0), float(case.get("top_p", 0.0) or 0.0)
     filtered = top_k > 0 or top_p > 0
@@ -461,14 +630,34 @@ def _run(case, ctx, env, inst, td0, policy, cfg, kw, tkw, slice_, tol, Tm, C, st
 
     torch.manual_seed(case["tseed"])
     with torch.no_grad():
-        out = ctx.guard(policy, td0.clone(), env, what=f"policy|{slice_}", **kw)
+        out = ctx.guard(policy, td0.clone(), env_arg, what=f"policy|{slice_}", **kw)
     A = out["actions"]
     R = B if (select_best or ksteps == 0) else B * k
     T = A.shape[1]
     ll = out["log_likelihood"]
     ctx.check(A.shape[0] == R and out["reward"].reshape(-1).shape[0] == R and ll.shape[0] == R
               and (ll.dim() == 1 if case["ret_sum"] else tuple(ll.shape) == (R, T)),
-              f"shape|{slice_}", f"actions {tuple(A.shape)} ll {tuple(ll.shape)} reward {tuple(out['reward'].shape)} for R={R}")
+              f"shape|{slice_}", f"actions {tuple(A.shape)} ll {tuple(ll.shape)} reward {tuple(out['reward'].shape)} for R={R}"
+              + (f" (request {case['form']}: {rkw} resolves to "
+                 f"{'multistart' if multistart else 'multisample' if multisample else 'a plain decode'}, {k} per instance)"
+                 if case.get("form") else ""))
+    if ssn is not None:
+        # the caller's start rule replaces the env's: called once as fn(td, env, num_starts) on the un-expanded batch; its
+        # answer (start-major: row j*B + b = start j of instance b) is what every rollout starts with
+        ctx.check(len(ssn.calls) == 1 and ssn.calls[0][0] == B and ssn.calls[0][2] == k
+                  and (env_arg is None or isinstance(env_arg, str) or ssn.calls[0][1] is env_arg),
+                  f"start_fn_call|{slice_}",
+                  f"select_start_nodes_fn was called {len(ssn.calls)}x with (batch, env, num_starts) = "
+                  f"{[(c[0], type(c[1]).__name__, c[2]) for c in ssn.calls]} (expected one call (B={B}, the env, {k}))")
+        if ssn.out is not None and A.shape[0] == R:
+            S = ssn.out.view(k, B)
+            if select_best:
+                ok_s = all(int(A[b, 0]) in S[:, b].tolist() for b in range(B))
+            else:
+                ok_s = torch.equal(A[:, 0].long(), ssn.out)
+            ctx.check(ok_s, f"start_fn_not_used|{slice_}",
+                      f"first actions {A[:, 0].tolist()} are not the starts the caller's select_start_nodes_fn handed out "
+                      f"({ssn.out.tolist()}, row j*B+b = start j of instance b)", {"actions": A, "starts": ssn.out})
 
     # ---- Oracle 1: reference loop on the returned actions
     if select_best:
@@ -552,7 +741,7 @@ def _run(case, ctx, env, inst, td0, policy, cfg, kw, tkw, slice_, tol, Tm, C, st
                   f"{_maxdiff(out['entropy'][okrow], ent_steps.sum(1)[okrow]):.3e}",
                   {"entropy": out["entropy"], "reference": ent_steps.sum(1), "ambiguous": amb})
     if filtered:
-        if "greedy" in mode:
+        if "greedy" in mode or case.get("form") == "greedy+samples=k":
             # the filters never remove the most probable entry: greedy decoding still takes the reference argmax
             # wherever it is decisive (top-2 gap of the kept entries, or a single kept entry)
             dec_ = okst & decoded & (ref.gap > (2e-3 if select_best else 1e-4))
@@ -568,7 +757,7 @@ def _run(case, ctx, env, inst, td0, policy, cfg, kw, tkw, slice_, tol, Tm, C, st
               f"returned reward differs from env.get_reward(final td, actions) by {_maxdiff(rew, r2):.3e}")
     spec = SPECS[envn]
     if spec.routing:
-        jcase = {"env": envn, "cfg": cfg, "src": "gen"}
+        jcase = {"env": envn, "cfg": cfg, "src": case.get("src", "gen")}
         for r in range(R):
             row = py_instance(envn, inst[r % B])
             acts = A[r].tolist()
@@ -585,10 +774,11 @@ def _run(case, ctx, env, inst, td0, policy, cfg, kw, tkw, slice_, tol, Tm, C, st
     do_rt, ref_eval = True, ref
     if multisample:
         td_eval, first = td0.clone(), 0
-        ekw.update(num_samples=k)
+        # the evaluate call is told about the replication the way the generating call was
+        ekw.update({kk: vv for kk, vv in (rkw or {"num_samples": k}).items() if kk in ("num_samples", "multisample")})
     elif multistart and not select_best:
         td_eval, first = expand_starts(td0, k), 1
-        if key == "polynet":
+        if family(key) == "polynet":
             do_rt = False  # PolyNet's strategy vector depends on the start index (by design)
             ctx.event("roundtrip_skipped(polynet multistart)")
         else:
@@ -621,7 +811,7 @@ def _run(case, ctx, env, inst, td0, policy, cfg, kw, tkw, slice_, tol, Tm, C, st
         ekw["actions"] = A[:, :Te].clone()
         ekw["max_steps"] = Te  # the loop breaks once step > max_steps: exactly Te steps are allowed
         with torch.no_grad():
-            out2 = ctx.guard(policy, td_eval, env, what=f"policy_evaluate|{slice_}", **ekw)
+            out2 = ctx.guard(policy, td_eval, env_arg, what=f"policy_evaluate|{slice_}", **ekw)
         ll2 = out2["log_likelihood"]
         ctx.check(tuple(ll2.shape) == (A.shape[0], Te), f"evaluate_shape|{slice_}",
                   f"evaluate returned log-likelihood of shape {tuple(ll2.shape)} for actions {tuple(A[:, :Te].shape)}")
@@ -713,6 +903,8 @@ def execute_ptrnet(case, ctx, env, inst, td0, policy, cfg):
     phase = "train" if case["train"] else "test"
     tol = 1e-5
     ctx.event("train_mode" if case["train"] else "eval_mode")
+    if case.get("opts"):
+        ctx.event(f"ptrnet:tanh={case['opts'].get('ptr_tanh')}|mask_inner={case['opts'].get('ptr_mask_inner')}")
     torch.manual_seed(case["tseed"])
     with torch.no_grad():
         out = ctx.guard(policy, td0.clone(), env, phase=phase, decode_type=mode, what=f"policy|{slice_}")
@@ -990,6 +1182,8 @@ def mdam_cases(draw, tier="quick"):
         mode=draw(st.sampled_from(["greedy", "sampling", "sampling"])), tseed=draw(st.integers(0, 2 ** 20)),
         via=draw(st.sampled_from(["kwarg", "kwarg", "phase"])), phase=draw(st.sampled_from(["train", "val", "test"])),
         variant=draw(st.integers(0, 3)),
+        # number of decoder paths (num_paths=1 raises UnboundLocalError in the pinned decoder: not a usable configuration)
+        paths=draw(st.sampled_from([3, 3, 2])),
     )
 
 
@@ -1000,8 +1194,9 @@ def mdam_minimize(case):
         yield {**c, "B": 1}
     if c["n"] > 4:
         yield {**c, "n": c["n"] - 1}
-    for key, val in (("via", "kwarg"), ("phase", "test"), ("variant", 0), ("spread", 1.5), ("pseed", 0), ("mode", "greedy")):
-        if c.get(key) != val:
+    for key, val in (("via", "kwarg"), ("phase", "test"), ("variant", 0), ("spread", 1.5), ("pseed", 0), ("mode", "greedy"),
+                     ("paths", 3)):
+        if c.get(key, val) != val:
             yield {**c, key: val}
 
 
@@ -1016,9 +1211,11 @@ def execute_mdam(case, ctx):
     ctx.event(f"zoo:mdam/{envn}|{mode}")
     cfg = env_cfg(envn, case["n"], case["variant"])
     env, inst, td0 = make_batch(envn, cfg, B, case["iseed"])
-    policy = build_policy("mdam", envn, env, seed=case["pseed"], spread=case["spread"])
+    K = int(case.get("paths", MDAM_PATHS))
+    ctx.event(f"mdam:paths={K}")
+    policy = build_policy("mdam", envn, env, seed=case["pseed"], spread=case["spread"],
+                          opts=(None if K == MDAM_PATHS else {"num_paths": K}))
     policy.eval()  # batch norm in the encoder: eval mode only
-    K = MDAM_PATHS
     kw = {}
     saved = {ph: getattr(policy, f"{ph}_decode_type") for ph in ("train", "val", "test")}
     if case["via"] == "kwarg":
